@@ -22,6 +22,7 @@ def main():
         print("unknown property %s" % pid)
         return 2
     report = common.Report(pid, tier, seed, spec["level"])
+    report.extra["explanation"] = spec["level_text"]
     ok = common.prepare(report, pid, spec.get("coq", []), spec.get("drivers", []))
     if ok:
         try:
